@@ -214,7 +214,7 @@ DEFAULT_WEIGHTS = {
     "simplify": 4, "downsize": 2, "branch": 5, "probe": 12, "forget": 2, "gc": 1, "backend_downsize": 1,
     # off by default, switched on by profiles
     "merge": 0, "combine": 0, "split": 0, "unsat_core": 0, "pickle": 0, "pickle_expr": 0, "g_truth": 0, "new": 0,
-    "add_replacement": 0,
+    "add_replacement": 0, "split_recombine": 0, "merge3": 0,
 }
 
 QUERY_KINDS = ("sat", "probe", "eval", "batch_eval", "min", "max", "solution", "is_true", "is_false")
@@ -253,6 +253,7 @@ class HistoryGen:
                 if k not in keep and r.chance(18):
                     self.weights[k] = 0
         self.max_handles = profile.get("max_handles", 5)
+        self.unknown_handles = 0
 
     # -- handle helpers
     @property
@@ -418,6 +419,10 @@ class HistoryGen:
         live = [h for h in self.handles if h.alive]
         hi = r.below(len(live))
         h = live[hi]
+        if self.unknown_handles and r.chance(35):
+            # handles the executor has and the generator cannot know (the parts split() returned): address them blindly;
+            # the executor maps the index onto its own list of live handles
+            hi = len(live) + r.below(self.unknown_handles)
         ref = h.ref
         kinds = [(k, w) for k, w in self.weights.items() if w > 0]
         kind = r.weighted(kinds)
@@ -480,11 +485,21 @@ class HistoryGen:
             same = [j for j, x in enumerate(live) if x is not h and x.cls == h.cls]
             if not same or len(live) >= self.max_handles + 2:
                 return
-            op.update(op="combine", others=r.sample(same, r.range(1, min(2, len(same)))))
+            others = r.sample(same, r.range(1, min(2, len(same))))
+            if self.unknown_handles and r.chance(40):
+                others[0] = len(live) + r.below(self.unknown_handles)
+            op.update(op="combine", others=others)
         elif kind == "split":
             op.update(op="split")
+            self.unknown_handles = min(6, self.unknown_handles + 2)
         elif kind == "unsat_core":
             op.update(op="unsat_core")
+        elif kind == "split_recombine":
+            self.macro_split_recombine(hi, h)
+            return
+        elif kind == "merge3":
+            self.macro_merge3(hi, h, live)
+            return
         elif kind == "add_replacement":
             if h.cls != "SolverReplacement":
                 return
@@ -548,6 +563,83 @@ class HistoryGen:
         n = r.choice(free)
         w = self.vars[n]
         return {"op": "add_replacement", "h": hi, "var": n, "value": r.below(1 << w)}
+
+    def macro_split_recombine(self, hi, h):
+        """C15: solve -> split() -> change one part so that its cached model dies, solve it again -> combine the parts
+        again -> query the result: model carry-over between split() and combine() shows here"""
+        from .spec import spec_vars
+
+        r = self.r
+        used = set()
+        for c in h.lineage:
+            spec_vars(c, used)
+        bvs = [n for n in self.order if n in used and self.vars[n] > 0 and n != self.flag]
+        if len(bvs) < 2:
+            return
+        a, b = r.sample(bvs, 2)
+        va, vb = ["var", a], ["var", b]
+        signed = r.chance(30)
+        self.emit({"op": r.choice(["min", "max"]), "h": hi, "e": va, "signed": signed, "extra": []})
+        self.emit({"op": "eval", "h": hi, "e": vb, "n": 1, "extra": []})
+        self.emit({"op": "split", "h": hi})
+        self.unknown_handles = min(6, self.unknown_handles + 2)
+        pa, pb = {"h_var": a, "h": hi}, {"h_var": b, "h": hi}
+        which = r.choice(["min", "max"])
+        m = h.ref.optimum(va, signed, which == "max")
+        if m is None:
+            return
+        self.emit({"op": which, "h": pa, "e": va, "signed": signed, "extra": []})
+        self.emit({"op": "add", "h": pa, "cs": [["ne", va, ["const", m, self.vars[a]]]]})
+        self.emit({"op": which, "h": pa, "e": va, "signed": signed, "extra": []})
+        first, second = (pa, pb) if r.chance(70) else (pb, pa)
+        self.emit({"op": "combine", "h": first, "others": [second]})
+        for _ in range(r.range(2, 4)):
+            k = r.weighted([("min", 2), ("max", 2), ("eval", 3), ("sat", 3), ("solution", 2)])
+            if k == "sat":
+                self.emit({"op": "sat", "h": -1, "extra": [["eq", va, ["const", m, self.vars[a]]]]})
+            elif k == "solution":
+                self.emit({"op": "solution", "h": -1, "e": va, "v": m, "extra": []})
+            elif k == "eval":
+                self.emit({"op": "eval", "h": -1, "e": r.choice([va, vb]), "n": r.choice([1, 2, 40]), "extra": []})
+            else:
+                self.emit({"op": k, "h": -1, "e": va, "signed": signed, "extra": []})
+
+    def macro_merge3(self, hi, h, live):
+        """C15: a three-way merge in which two participants share state (branches of one base) and the third has an
+        unrelated history that constrains the same variables differently"""
+        r = self.r
+        if len(live) > self.max_handles:
+            return
+        bvs = [n for n in self.order if self.vars[n] > 0 and n != self.flag]
+        if not bvs:
+            return
+        a = r.choice(bvs)
+        w = self.vars[a]
+        va = ["var", a]
+        k1 = r.below(1 << w)
+        self.emit({"op": "add", "h": hi, "cs": [[r.choice(["ule", "uge", "eq", "ne"]), va, ["const", k1, w]]]})
+        if r.chance(50):
+            self.emit({"op": "sat", "h": hi, "extra": []})
+        self.emit({"op": "branch", "h": hi})
+        self.emit({"op": "branch", "h": hi})
+        self.emit({"op": "new", "cls": h.cls, "kw": dict(h.kw or {})})
+        self.emit({"op": "add", "h": -1, "cs": [[r.choice(["eq", "ugt", "ult"]), va, ["const", r.below(1 << w), w]]]})
+        if self.flag:
+            fw = self.vars[self.flag]
+            conds = [["eq", ["var", self.flag], ["const", i, fw]] for i in range(3)]
+        else:
+            conds = [self.eg.boolean(1) for _ in range(3)]
+        order = r.choice([[-3, -2, -1], [-1, -3, -2], [-2, -1, -3]])
+        self.emit({"op": "merge", "h": order[0], "others": order[1:], "conds": conds})
+        for i in range(3):
+            ex = [conds[i]] if r.chance(70) else []
+            k = r.choice(["sat", "eval", "max"])
+            if k == "sat":
+                self.emit({"op": "sat", "h": -1, "extra": ex})
+            elif k == "eval":
+                self.emit({"op": "eval", "h": -1, "e": va, "n": r.choice([1, 3, 40]), "extra": ex})
+            else:
+                self.emit({"op": "max", "h": -1, "e": va, "signed": False, "extra": ex})
 
     def kill_and_requery(self, q, hi, h):
         """Invalidation pattern: exclude the value a query has just returned (the optimum, or one of the evaluated
@@ -814,8 +906,9 @@ PROFILES = {
         "frontends": [("Solver", 4), ("SolverCacheless", 2), ("SolverComposite", 4), ("SolverHybrid", 2), ("SolverReplacement", 2)],
         "var_shapes": FLAG_SHAPES,
         "length": (6, 36),
-        "weights": {"branch": 14, "merge": 9, "combine": 8, "split": 5, "add": 24},
+        "weights": {"branch": 14, "merge": 9, "combine": 8, "split": 6, "add": 24, "new": 4, "split_recombine": 4, "merge3": 4},
         "never_swarm_out": ("branch",),
+        "initial_handles": (1, 2),
         "max_handles": 6,
     },
     "C16": {
